@@ -16,7 +16,15 @@ import (
 	"verifharness/vh"
 )
 
-var chunkings = []string{"1", "2", "3", "7", "midrune", "rand", "z1", "zwhole"}
+// chunkings: the read schedules every base document is decoded under (besides the whole read):
+// fixed sizes, a split inside every multi-byte sequence and escape, random sizes, a first Read of
+// 0 bytes ("z…"), and the end of input reported by the same Read call that delivers the last bytes
+// ("e…": n > 0 together with io.EOF, which io.Reader explicitly allows).
+var chunkings = []string{"1", "2", "3", "7", "midrune", "rand", "z1", "zwhole", "e1", "e7", "ewhole"}
+
+// faultKinds: what the failing reader returns: a custom error or io.ErrUnexpectedEOF, on a Read call of
+// its own (0 bytes) or ("+") together with the last bytes before the failure.
+var faultKinds = []string{"inj", "ueof", "inj+", "ueof+"}
 
 // firstBytes: prefixes put in front of a document so that its first character is multi-byte (a byte
 // order mark, no-break space, line separator, ideographic space, a letter, an astral character):
@@ -177,13 +185,17 @@ func (s *sink) schedule(c Case, r *vh.Rng, thorough, verboseOut bool) {
 	}
 	// every offset of the trailing trivia (after the last non-blank byte) and the very end: a reader
 	// that fails there fails *instead of* reporting the end of input
-	last := len(bytes.TrimRight(c.Input, " \t\r\n"))
+	last := triviaStart(c.Format, c.Input)
 	for p := last; p <= n && p-last < 64; p++ {
 		faultPos = append(faultPos, p)
 	}
+	if n-last >= 64 { // long trivia: its first 64 offsets above, and always the very end and the byte before it
+		faultPos = append(faultPos, n-1, n)
+	}
+	s.Hist[fmt.Sprintf("fault-positions:%s:trailing-trivia-and-end", c.Format)] += n - last + 1
 	for i, p := range faultPos {
 		cc := c
-		cc.Sched = Sched{Chunk: vh.Pick(r, []string{"whole", "whole", "rand", "1"}), Seed: 3, FaultAt: p, Fault: []string{"inj", "ueof"}[i%2]}
+		cc.Sched = Sched{Chunk: vh.Pick(r, []string{"whole", "whole", "rand", "1"}), Seed: 3, FaultAt: p, Fault: faultKinds[i%len(faultKinds)]}
 		if n > 2048 && cc.Sched.Chunk == "1" {
 			cc.Sched.Chunk = "rand"
 		}
@@ -204,6 +216,7 @@ func (s *sink) schedule(c Case, r *vh.Rng, thorough, verboseOut bool) {
 			if p >= last {
 				where = "trailing-trivia-or-end"
 			}
+			s.count("fault-not-read:" + c.Format + ":" + where)
 			s.add(violation{Prop: "C15", Kind: "fault-not-read", Format: c.Format, Sub: where, Detail: fmt.Sprintf("reader fails at offset %d of %d (never reports end of input) but the decoder ended cleanly with %d statements without reading that far; expected: an error", p, n, len(got.Stmts)), Case: cc})
 		case streaming[c.Format] && ref.Verdict == "clean" && !isPrefixUpToLast(got.Stmts, ref.Stmts):
 			s.add(violation{Prop: "C15", Kind: "prefix", Format: c.Format, Sub: prefixSub("fault", got.Stmts, ref.Stmts), Detail: "statements before the reader fault are not a prefix of the complete document's: " + firstDiff(got.Stmts, ref.Stmts), Case: cc})
@@ -304,10 +317,13 @@ func (e *engine) runSchedules() {
 			}
 			for i := 0; i < nFirst*e.scale; i++ {
 				s := pick()
-				for _, fb := range firstBytes {
-					if i >= 2 && r.Chance(60) {
+				for fi, fb := range firstBytes {
+					if i >= 2 && fi > 0 && r.Chance(60) { // the byte order mark in front of every picked document, the others thinned out
 						continue
 					}
+					repMu.Lock()
+					e.rep.Hist[fmt.Sprintf("first-bytes:%q", fb)]++
+					repMu.Unlock()
 					emit(Case{Format: f, Opts: e.randOpts(r, f), Input: append([]byte(fb), s.B...), Family: "first-bytes", Name: s.Name})
 				}
 			}
@@ -365,6 +381,41 @@ func refine(st []string) []string {
 		cur[i] = reBn.ReplaceAllStringFunc(s, func(l string) string { return "_:" + colour[l] })
 	}
 	return cur
+}
+
+// triviaStart: the offset after which the document holds only trivia (white space; comments and
+// processing instructions for the markup formats; '#' comment lines for the line / Turtle formats):
+// the region in which a reader failure replaces the end of input rather than interrupting a statement.
+func triviaStart(format string, b []byte) int {
+	end := len(b)
+	for {
+		end = len(bytes.TrimRight(b[:end], " \t\r\n"))
+		t := b[:end]
+		switch format {
+		case "nt", "nq", "ttl", "trig":
+			i := bytes.LastIndexByte(t, '\n') + 1
+			line := bytes.TrimLeft(t[i:], " \t")
+			if len(line) > 0 && line[0] == '#' { // a last line that is only a comment
+				end = i
+				continue
+			}
+		case "jsonld", "rdfjson":
+		default:
+			if bytes.HasSuffix(t, []byte("-->")) {
+				if i := bytes.LastIndex(t, []byte("<!--")); i >= 0 {
+					end = i
+					continue
+				}
+			}
+			if bytes.HasSuffix(t, []byte("?>")) {
+				if i := bytes.LastIndex(t, []byte("<?")); i > 0 { // i == 0: the XML declaration is not trailing trivia
+					end = i
+					continue
+				}
+			}
+		}
+		return end
+	}
 }
 
 // trailingTrivia: what may follow a complete document of the format without changing its meaning.
